@@ -44,6 +44,8 @@ class Engine(ExprMixin, CallMixin, StmtMixin):
         self.delitem_hooks = {}
         self.ctx_hooks = {}
         self.store_monitors = {}
+        self.coerce_hooks = {}
+        self.arg_hooks = {}
         self.exc_names = {}
         self.axioms = []
         self.axiom_groups = collections.defaultdict(list)
